@@ -2,6 +2,7 @@ import JunoModel.Common.Proto
 import JunoModel.C15.Model
 import JunoModel.C15.ModelRange
 import JunoModel.C15.ModelBuf
+import JunoModel.C15.ModelStack
 /-!
 Line-protocol driver for the C15 model (`lake build c15drv`).
 
@@ -12,6 +13,9 @@ Line-protocol driver for the C15 model (`lake build c15drv`).
   newbuf | bufput B K V | bufdel B K | bufget B K F | bufflush B | bufwrite B | bufclose B | bufother B
                    db.BufferBatch around indexed batch B (ModelBuf.lean); same answer format as <op>
   psize P U        CalculatePrefixSize(P, U): `n:<count>:<bytes>` per model
+  lnew buf|sync bN|lM   db.NewBufferBatch / db.NewSyncBatch over batch N or over layer M (ModelStack.lean)
+  lput L K V | ldel L K | ldelrange L S E | lget L K F | lhas L K | lscan L P U | lsize L | lwrite L | lclose L
+                   the methods of db.IndexedBatch on layer L;  lflush L = BufferBatch.Flush
   <op>             one storage operation (see harness/cmd/c15/ops.go); answer:
                    `<Mem model> | <Peb model> | <Spec> | <d><m><f>` with d = step is inside the documented
                    contract, m = db/memory not on its re-entrancy defect, f = `f5Free` after the step
@@ -22,13 +26,13 @@ structure St where
   cfg : MemCfg
   /-- which transcription of the db/memory batch answers in the first column -/
   rangeLog : Bool
-  mem : BWorld MBatch MIter
-  mem2 : BWorld M2Batch MIter
-  peb : BWorld PBatch PIter
-  spec : BWorld SBatch SIter
+  mem : SWorld MBatch MIter
+  mem2 : SWorld M2Batch MIter
+  peb : SWorld PBatch PIter
+  spec : SWorld SBatch SIter
 
 def St.init (cfg : MemCfg) (rangeLog : Bool := false) : St :=
-  ⟨cfg, rangeLog, BWorld.init, BWorld.init, BWorld.init, BWorld.init⟩
+  ⟨cfg, rangeLog, SWorld.init, SWorld.init, SWorld.init, SWorld.init⟩
 
 def showKV (x : Key × Val) : String := bytesToHex x.1 ++ "=" ++ bytesToHex x.2
 
@@ -138,6 +142,37 @@ def xmemOK (c : MemCfg) : XOp → Bool
   | .base op => memOK c op
   | _ => true
 
+def under? (s : String) : Option Under :=
+  match s.toList with
+  | 'b' :: rest => (String.ofList rest).toNat?.map .batch
+  | 'l' :: rest => (String.ofList rest).toNat?.map .layer
+  | _ => none
+
+def sop? : List String → Option SOp
+  | ["lnew", "buf", u] => do pure (.lnew .buf (← under? u))
+  | ["lnew", "sync", u] => do pure (.lnew .sync (← under? u))
+  | ["lput", l, k, v] => do pure (.lcall (← l.toNat?) (.put (← hexToBytes? k) (← hexToBytes? v)))
+  | ["ldel", l, k] => do pure (.lcall (← l.toNat?) (.del (← hexToBytes? k)))
+  | ["ldelrange", l, a, b] => do pure (.lcall (← l.toNat?) (.delRange (← hexToBytes? a) (← hexToBytes? b)))
+  | ["lget", l, k, f] => do pure (.lcall (← l.toNat?) (.get (← hexToBytes? k) (← bool? f)))
+  | ["lhas", l, k] => do pure (.lcall (← l.toNat?) (.has (← hexToBytes? k)))
+  | ["lscan", l, p, u] => do pure (.lcall (← l.toNat?) (.scan (← hexToBytes? p) (← bool? u)))
+  | ["lsize", l] => do pure (.lcall (← l.toNat?) .size)
+  | ["lwrite", l] => do pure (.lcall (← l.toNat?) .write)
+  | ["lclose", l] => do pure (.lcall (← l.toNat?) .close)
+  | ["lflush", l] => do pure (.lflush (← l.toNat?))
+  | ws => (xop? ws).map .base
+
+def sdocumented (sw : SWorld SBatch SIter) : SOp → Bool
+  | .base x => xdocumented sw.bw.w x
+  | .lnew _ _ => true
+  | .lcall n c => ldocumented sw n c
+  | .lflush _ => true
+
+def smemOK (c : MemCfg) : SOp → Bool
+  | .base x => xmemOK c x
+  | _ => true
+
 def showSize {B I : Type} (M : Impl B I) (w : World B I) (p : Key) (u : Bool) : String :=
   match w.db with
   | none => "err:closed"
@@ -147,7 +182,7 @@ def stepLine (s : St) (line : String) : St × String :=
   match words line with
   | ["ub", p] =>
     match hexToBytes? p with
-    | some bs => (s, match upperBound bs with | none => "nil" | some u => bytesToHex u)
+    | some bs => (s, match upperBoundGo bs with | none => "nil" | some u => bytesToHex u)
     | none => (s, "bad-op")
   | ["hasprefix", k, p] =>
     match hexToBytes? k, hexToBytes? p with
@@ -165,20 +200,20 @@ def stepLine (s : St) (line : String) : St × String :=
   | ["psize", p, u] =>
     match hexToBytes? p, bool? u with
     | some p, some u =>
-      (s, (if s.rangeLog then showSize (mem2Impl s.cfg) s.mem2.w p u else showSize (memImpl s.cfg) s.mem.w p u) ++ " | " ++
-        showSize pebImpl s.peb.w p u ++ " | " ++ showSize specImpl s.spec.w p u ++ " | 111")
+      (s, (if s.rangeLog then showSize (mem2Impl s.cfg) s.mem2.bw.w p u else showSize (memImpl s.cfg) s.mem.bw.w p u) ++ " | " ++
+        showSize pebImpl s.peb.bw.w p u ++ " | " ++ showSize specImpl s.spec.bw.w p u ++ " | 111")
     | _, _ => (s, "bad-op")
   | ws =>
-    match xop? ws with
+    match sop? ws with
     | none => (s, "bad-op")
     | some op =>
-      let d := xdocumented s.spec.w op
-      let m := xmemOK s.cfg op
-      let rm := xstep (memImpl s.cfg) s.mem op
-      let rm2 := xstep (mem2Impl s.cfg) s.mem2 op
-      let rp := xstep pebImpl s.peb op
-      let rs := xstep specImpl s.spec op
-      let f := f5Free rs.1.w
+      let d := sdocumented s.spec op
+      let m := smemOK s.cfg op
+      let rm := sstep (memImpl s.cfg) s.mem op
+      let rm2 := sstep (mem2Impl s.cfg) s.mem2 op
+      let rp := sstep pebImpl s.peb op
+      let rs := sstep specImpl s.spec op
+      let f := f5Free rs.1.bw.w
       let b := fun (x : Bool) => if x then "1" else "0"
       ({ s with mem := rm.1, mem2 := rm2.1, peb := rp.1, spec := rs.1 },
         showOut (if s.rangeLog then rm2.2 else rm.2) ++ " | " ++ showOut rp.2 ++ " | " ++ showOut rs.2 ++ " | " ++ b d ++ b m ++ b f)
